@@ -13,7 +13,9 @@
 package c07
 
 import (
+	"bytes"
 	"context"
+	"net/http"
 	"fmt"
 	"os"
 	"runtime/debug"
@@ -24,6 +26,7 @@ import (
 	"time"
 
 	"github.com/superfly/litefs"
+	lfshttp "github.com/superfly/litefs/http"
 	"github.com/superfly/ltx"
 	"verif/lab"
 	"verif/mon"
@@ -39,18 +42,22 @@ type LossCase struct {
 	K     int    `json:"k"` // loss before the K-th file operation of the transaction (0-based); -1 = probe run without loss
 	// Commit is the index of the operation that begins the commit step in the loss-free run (from the probe).
 	Commit int `json:"commit"`
+	// ImportAt >= 0: before that operation of the transaction (the connection then holds its write lock) an HTTP
+	// import of another image is sent to the node; it waits for the write lock while the node loses its authority.
+	ImportAt int `json:"import_at"`
 }
 
 type LossResult struct {
 	V          []prog.V `json:"v,omitempty"`
 	Steps      int      `json:"steps"`       // file operations the transaction issued
 	CommitStep int      `json:"commit_step"` // index of the operation that begins the commit step (-1 unknown)
+	LockedFrom int      `json:"locked_from"` // index of the operation that takes the write lock (RESERVED / WAL write lock)
 	Class      string   `json:"class"`
 	Harness    string   `json:"harness,omitempty"`
 	Trace      []string `json:"trace,omitempty"`
 }
 
-var lossShapes = map[bool][]string{false: {"mod-delete", "grow-spill-truncate", "mod-persist"}, true: {"one-frame", "grow-three-frames"}}
+var lossShapes = map[bool][]string{false: {"mod-delete", "grow-spill-truncate", "mod-persist", "mod-last-page-spill"}, true: {"one-frame", "grow-three-frames"}}
 
 func commitStepOf(wal bool, trace []string) int {
 	idx := -1
@@ -169,7 +176,20 @@ func runLoss(t *testing.T, c LossCase) (res LossResult) {
 		conn.KeepTrace = true
 		conn.Trace = nil
 		base := conn.Steps
+		importDone := make(chan error, 1)
+		importStarted := false
 		conn.Before = func(step int, desc string) {
+			if c.K >= 0 && c.ImportAt >= 0 && step-base-1 == c.ImportAt && !importStarted {
+				importStarted = true
+				im := &oracle.Image{PageSize: ps}
+				im.Pages = append(im.Pages, pager.MakePage1(ps, 0x9100, 2, c.WAL, 5), pager.MakePage(ps, 2, 0x9100))
+				go func() {
+					cli := lfshttp.NewClient()
+					cli.HTTPClient = &http.Client{Transport: cl.Net.Transport("client")}
+					importDone <- cli.Import(context.Background(), "http://P", "db", bytes.NewReader(im.Bytes()))
+				}()
+				lab.Settle(200 * time.Millisecond) // the import is now waiting for the write lock
+			}
 			if c.K < 0 || step-base-1 != c.K || lost { // step counts from 1
 				return
 			}
@@ -219,16 +239,46 @@ func runLoss(t *testing.T, c LossCase) (res LossResult) {
 				x = pager.RTx{Mods: []uint32{2, 3}, NewSize: 6, SpillAfter: []int{1}, Final: "TRUNCATE", Outcome: "commit"}
 			case "mod-persist":
 				x = pager.RTx{Mods: []uint32{3}, Final: "PERSIST", Outcome: "commit"}
+			case "mod-last-page-spill":
+				// the last page of the database is overwritten in the file before the loss (spill): the node's own recovery must put it back
+				x = pager.RTx{Mods: []uint32{4, 2}, SpillAfter: []int{1}, Final: "DELETE", Outcome: "commit"}
 			}
 			out := conn.RunRTx(x, cur)
 			committed, intended, txErr, errStep = out.Committed, out.Intended, out.Err, out.ErrStep
 		}
 		conn.Before = nil
+		importResult := "none"
+		if importStarted {
+			var ierr error
+			got := lab.WaitFor(60*time.Second, func() bool {
+				select {
+				case ierr = <-importDone:
+					return true
+				default:
+					return false
+				}
+			})
+			switch {
+			case !got:
+				importResult = "no-answer"
+			case ierr == nil:
+				importResult = "accepted"
+			default:
+				importResult = "refused"
+			}
+		}
 		posAfterTx := P.DB("db").Pos()
 		listingAfterTx := ltxListing(P, "db")
 		res.Steps = conn.Steps - base
 		res.Trace = conn.Trace
 		res.CommitStep = commitStepOf(c.WAL, conn.Trace)
+		res.LockedFrom = -1
+		for i, d := range conn.Trace {
+			if d == "lock RESERVED w" || d == "lock shm 120+1 w" {
+				res.LockedFrom = i
+				break
+			}
+		}
 		conn.Close()
 		if res.Harness != "" {
 			return
@@ -296,7 +346,10 @@ func runLoss(t *testing.T, c LossCase) (res LossResult) {
 		after := P.DB("db").Pos()
 		published := posAfterTx != before || listingAfterTx != listingBefore
 		lossBeforeCommit := c.K <= c.Commit
-		res.Class = fmt.Sprintf("loss-before-commit-step=%v app-told-committed=%v published=%v err=%v exited=%v", lossBeforeCommit, committed, published, txErr != nil, exited)
+		res.Class = fmt.Sprintf("loss-before-commit-step=%v app-told-committed=%v published=%v err=%v exited=%v import=%s", lossBeforeCommit, committed, published, txErr != nil, exited, importResult)
+		if importStarted && lossBeforeCommit && importResult == "accepted" {
+			viol("C07/import-accepted-after-loss/"+c.Loss, "an import that was waiting for the write lock when the node lost write authority (%s before operation %d) was answered with success; position %s -> %s", c.Loss, c.K, before, posAfterTx)
+		}
 		if lossBeforeCommit {
 			if published {
 				viol("C07/published-after-loss/"+c.Loss, "the node lost write authority (%s) before operation %d (%q); the commit step begins at operation %d, yet the transaction was published: position %s -> %s, log %s -> %s\ntrace: %v",
